@@ -295,6 +295,13 @@ func init() {
 		rule{name: "schema:bad-example", kinds: []string{"Schema"}, expect: unless(optNoExamples), apply: replaceSchema(`{"type":"integer","example":"notanint"}`)},
 		rule{name: "schema:bad-pattern", kinds: []string{"Schema"}, expect: unless(optNoPattern), apply: replaceSchema(`{"type":"string","pattern":"("}`)},
 		rule{name: "schema:unknown-format", kinds: []string{"Schema"}, expect: onlyIf(optFormat), apply: replaceSchema(`{"type":"string","format":"no-such-format"}`)},
+		// the built-in formats belong to one numeric type each
+		rule{name: "schema:integer-with-number-format", kinds: []string{"Schema"}, expect: onlyIf(optFormat), apply: func(n metamodel.Node, d M, v int) bool {
+			return replaceSchema(`{"type":"integer","format":"` + []string{"float", "double"}[v%2] + `"}`)(n, d, v)
+		}},
+		rule{name: "schema:number-with-integer-format", kinds: []string{"Schema"}, expect: onlyIf(optFormat), apply: func(n metamodel.Node, d M, v int) bool {
+			return replaceSchema(`{"type":"number","format":"` + []string{"int32", "int64"}[v%2] + `"}`)(n, d, v)
+		}},
 		rule{name: "schema:readonly-and-writeonly", kinds: []string{"Schema"}, expect: always(""), apply: func(n metamodel.Node, _ M, _ int) bool {
 			n.Obj["readOnly"], n.Obj["writeOnly"] = true, true
 			return true
